@@ -870,3 +870,134 @@ pub fn run(cfg: &Cfg, out: &mut Out) {
         exec(out, &workers, nrec, &script);
     }
 }
+
+
+// ---------------------------------------------------------------------------------------------
+// concurrent stream: record() racing snapshot() on one histogram, under the deterministic scheduler (yield points
+// of the lock-free bucket).  Every recorded value is distinct, so "each value appears in exactly one snapshot"
+// is checked literally.  The only loss the unchanged code shows has the K1 trace signature of the bucket
+// (K-C05-K1); anything else — a loss without that signature, or a value in two snapshots — is a violation.
+pub fn run_concurrent(cfg: &Cfg, out: &mut Out) {
+    use std::sync::Mutex;
+    static META: metrics::Metadata<'static> = metrics::Metadata::new("mv", metrics::Level::INFO, None);
+    let root = Rng::new(cfg.seed ^ 0xC19C);
+    let n = if cfg.thorough { 600 } else { 120 };
+    for i in 0..n {
+        let mut r = root.fork(i as u64);
+        out.case(&format!("concurrent seed={} i={}", cfg.seed, i));
+        let rec = Arc::new(DebuggingRecorder::new());
+        let snapper = rec.snapshotter();
+        let key = Key::from_name("lat");
+        let h = rec.register_histogram(&key, &META);
+        // the first cases are targeted: a record() completes entirely between two steps of the snapshot's drain
+        let targeted = i < 24;
+        let prefill = if targeted { [0usize, 1, 63, 64][i % 4] } else { *r.pick(&[0usize, 1, 2, 62, 63, 64, 65]) };
+        let mut next_val = 1u32;
+        let mut recorded: Vec<u64> = vec![];
+        for _ in 0..prefill {
+            let v = next_val as f64;
+            next_val += 1;
+            h.record(v);
+            recorded.push(v.to_bits());
+        }
+        let nrec = if targeted { 1 } else { r.range(1, 3) };
+        let mut bodies: Vec<Box<dyn FnOnce() + Send + 'static>> = vec![];
+        for _ in 0..nrec {
+            let h = h.clone();
+            let k = if targeted { 1 + (i / 12) % 2 } else { r.range(1, 3) };
+            let mut vals = vec![];
+            for _ in 0..k {
+                let v = next_val as f64;
+                next_val += 1;
+                vals.push(v);
+                recorded.push(v.to_bits());
+            }
+            bodies.push(Box::new(move || {
+                for v in vals {
+                    h.record(v);
+                }
+            }));
+        }
+        let snaps: Arc<Mutex<Vec<Vec<u64>>>> = Arc::new(Mutex::new(vec![]));
+        let nsnap = if targeted { 1 } else { r.range(1, 3) };
+        {
+            let snapper = snapper.clone();
+            let snaps = snaps.clone();
+            bodies.push(Box::new(move || {
+                for _ in 0..nsnap {
+                    let s = snapper.snapshot().into_vec();
+                    let mut vals = vec![];
+                    for (_, _, _, v) in s {
+                        if let DebugValue::Histogram(xs) = v {
+                            vals.extend(xs.into_iter().map(|x| x.into_inner().to_bits()));
+                        }
+                    }
+                    snaps.lock().unwrap().push(vals);
+                }
+            }));
+        }
+        let nt = bodies.len();
+        let mut sch = vec![];
+        if targeted {
+            // snapshot thread advances `a` grants into its drain, then the recorder runs to completion, then the rest
+            let a = 1 + (i / 4) % 6;
+            sch.extend(vec![nt - 1; a]);
+            sch.extend(vec![0; 12]);
+            sch.extend(vec![nt - 1; 60]);
+        }
+        let mut cur = r.below(nt);
+        for _ in 0..120 {
+            if r.chance(2, 5) {
+                cur = r.below(nt);
+            }
+            sch.push(cur);
+        }
+        let run = crate::sched::run(bodies, &sch);
+        out.count(&format!("concurrent.prefill={}", prefill));
+        if run.deadlock || run.timed_out || !run.panicked.is_empty() {
+            out.oracle_fail("record racing snapshot: deadlock, timeout or panic", &format!("{:?}", run.trace));
+            continue;
+        }
+        // one more snapshot at quiescence collects what is left
+        {
+            let s = snapper.snapshot().into_vec();
+            let mut vals = vec![];
+            for (_, _, _, v) in s {
+                if let DebugValue::Histogram(xs) = v {
+                    vals.extend(xs.into_iter().map(|x| x.into_inner().to_bits()));
+                }
+            }
+            snaps.lock().unwrap().push(vals);
+        }
+        let snaps = snaps.lock().unwrap().clone();
+        let sig = crate::c05::signatures_of_trace(&run.trace);
+        if run.trace.iter().any(|(_, id)| id.starts_with("bkt.clear")) && run.trace.iter().any(|(_, id)| *id == "blk.push.claim") {
+            out.nontrivial();
+        }
+        let mut seen: HashMap<u64, usize> = HashMap::new();
+        for s in &snaps {
+            for v in s {
+                *seen.entry(*v).or_insert(0) += 1;
+            }
+        }
+        let dup: Vec<f64> = seen.iter().filter(|(_, c)| **c > 1).map(|(v, _)| f64::from_bits(*v)).collect();
+        let invented: Vec<f64> = seen.keys().filter(|v| !recorded.contains(v)).map(|v| f64::from_bits(*v)).collect();
+        let lost: Vec<f64> = recorded.iter().filter(|v| !seen.contains_key(v)).map(|v| f64::from_bits(*v)).collect();
+        let show = |snaps: &Vec<Vec<u64>>| -> Vec<Vec<f64>> { snaps.iter().map(|s| s.iter().map(|b| f64::from_bits(*b)).collect()).collect() };
+        if !dup.is_empty() || !invented.is_empty() {
+            out.oracle_fail(
+                "a histogram value appears in two snapshots, or a value that was never recorded appears [no-known-signature]",
+                &format!("duplicated {:?} invented {:?}; snapshots {:?}; trace {:?}", dup, invented, show(&snaps), run.trace),
+            );
+        }
+        if !lost.is_empty() {
+            out.oracle_fail(
+                &format!(
+                    "a recorded histogram value appears in no snapshot [{}]",
+                    if sig.k1 { "K1:straggler-push-on-detached-block" } else { "no-known-signature" }
+                ),
+                &format!("lost {:?}; snapshots {:?}; trace {:?}", lost, show(&snaps), run.trace),
+            );
+        }
+    }
+}
